@@ -500,11 +500,11 @@ def drive(prop_id, tier, seed_value, only=None, jobs=None, scale=1.0,
     # ---- known-finding probes ------------------------------------------
     lines = []
     for f in known:
-        if only and f.get("subcheck") not in only:
+        if only and (f.get("probe_sub") or f.get("subcheck")) not in only:
             continue
         reproduced = None
         if f.get("probe") is not None:
-            info = run_replay(prop_id, f["subcheck"], f["probe"])
+            info = run_replay(prop_id, f.get("probe_sub") or f["subcheck"], f["probe"])
             reproduced = info is not None and info.get("key") == f["key"]
         hits = known_hits.get(f["key"], 0)
         if reproduced or hits or reproduced is None:
